@@ -1,6 +1,6 @@
 SPECIFICATION Spec
 CONSTANTS
   Full = FALSE
-  DEV_SmallAngleLinearised = FALSE
+  DEV_SmallAngleLinearised = TRUE
   DEV_EnvironmentNotMoved = FALSE
-INVARIANT Emit
+INVARIANT LawImplRigid
